@@ -316,6 +316,89 @@ def run_grad(ctx, i, rng):
     ctx.check(close_arrays(state_of(model), want), 'state_after:grad', lambda: dict(case=desc, count=int(model.count.value), want=int(want['count'])))
 
 
+def run_scan_carry_objects(ctx, i, rng):
+  """The Carry of nnx.scan holds NNX objects of different kinds - a bare Variable, a Module, tuples / dicts of both in either order:
+  after the scan every one of them is the caller's own object in the state the Python loop leaves."""
+  import jax.numpy as jnp
+  from flax import nnx
+  shape = ['var', 'module', 'var_module', 'module_var', 'dict', 'var_var', 'module_array_var'][i % 7]
+  T = rng.randint(1, 4)
+  reverse = rng.random() < 0.3
+  desc = dict(carry=shape, T=T, reverse=reverse)
+  with ctx.case('scan_carry', i, desc, nontrivial=True):
+    class Acc(nnx.Module):
+      def __init__(self, v0):
+        self.total = nnx.BatchStat(jnp.asarray(v0, jnp.float32))
+        self.n = nnx.Variable(jnp.asarray(0, jnp.int32))
+
+    def build():
+      v, w, m = nnx.Variable(jnp.asarray(0.5, jnp.float32)), nnx.Param(jnp.asarray(-1.0, jnp.float32)), Acc(2.0)
+      arr = jnp.asarray(3.0, jnp.float32)
+      carry = {'var': v, 'module': m, 'var_module': (v, m), 'module_var': (m, v), 'dict': {'z': v, 'a': m}, 'var_var': (v, w),
+               'module_array_var': (m, arr, v)}[shape]
+      return carry, dict(v=v, w=w, m=m)
+
+    def parts(c):
+      if shape == 'var':
+        return dict(v=c)
+      if shape == 'module':
+        return dict(m=c)
+      if shape == 'var_module':
+        return dict(v=c[0], m=c[1])
+      if shape == 'module_var':
+        return dict(m=c[0], v=c[1])
+      if shape == 'dict':
+        return dict(v=c['z'], m=c['a'])
+      if shape == 'var_var':
+        return dict(v=c[0], w=c[1])
+      return dict(m=c[0], arr=c[1], v=c[2])
+
+    def rebuild(c, arr):
+      return (c[0], arr, c[2]) if shape == 'module_array_var' else c
+
+    def body(c, x):
+      p = parts(c)
+      arr = None
+      if 'v' in p:
+        p['v'].value = p['v'].value * 0.5 + x
+      if 'w' in p:
+        p['w'].value = p['w'].value - 2.0 * x
+      if 'm' in p:
+        p['m'].total.value = p['m'].total.value + 2.0 * x
+        p['m'].n.value = p['m'].n.value + 1
+      if 'arr' in p:
+        arr = p['arr'] + x
+      return rebuild(c, arr), x * 3.0
+
+    xs = jnp.asarray(np.random.default_rng(i).uniform(-1, 1, (T,)).astype(np.float32))
+    carry_e, objs_e = build()
+    ce = carry_e
+    for t in (range(T - 1, -1, -1) if reverse else range(T)):
+      ce, _ = body(ce, xs[t])
+    carry_t, objs_t = build()
+    out_c, ys = nnx.scan(body, in_axes=(nnx.Carry, 0), out_axes=(nnx.Carry, 0), reverse=reverse)(carry_t, xs)
+    ctx.op('nnx.scan(carry=%s)' % shape)
+
+    def vals(objs):
+      out = {}
+      for k, o in objs.items():
+        if k == 'm':
+          out['m.total'], out['m.n'] = np.asarray(o.total.value), np.asarray(o.n.value)
+        else:
+          out[k] = np.asarray(o.value)
+      return out
+
+    ve, vt = vals(objs_e), vals(objs_t)
+    ctx.check(all(np.allclose(ve[k], vt[k], **TOL) for k in ve), 'state_after:scan_carry_objects',
+              lambda: dict(case=desc, loop={k: v.tolist() for k, v in ve.items()}, scan={k: v.tolist() for k, v in vt.items()}))
+    po = parts(out_c)
+    same = all(po[k] is objs_t[k] for k in po if k != 'arr')
+    ctx.check(same, 'identity:scan_carry_result_is_a_copy', lambda: dict(case=desc, types={k: type(v).__name__ for k, v in po.items()}))
+    if 'arr' in po:
+      ctx.check(np.allclose(np.asarray(po['arr']), np.asarray(parts(ce)['arr']), **TOL), 'scan_carry:array_value', lambda: dict(case=desc))
+    ctx.check(np.allclose(np.asarray(ys), np.asarray(xs) * 3.0, **TOL), 'scan_carry:outputs', lambda: dict(case=desc))
+
+
 def run_grad_history(ctx, i, rng):
   """One nnx.grad / value_and_grad function object reused over a call history that contains rejected calls (integer-dtype selected
   Variable, an exception in the user's loss, inconsistent aliasing): every accepted call must still equal jax.grad of the functional
@@ -469,6 +552,8 @@ def run(ctx):
     run_scan(ctx, i, ctx.rng('scan', i))
   for i in ctx.indices(110 if ctx.tier == 'quick' else 1600, 'grad'):
     run_grad(ctx, i, ctx.rng('grad', i))
+  for i in ctx.indices(42 if ctx.tier == 'quick' else 280, 'scan_carry'):
+    run_scan_carry_objects(ctx, i, ctx.rng('scan_carry', i))
   for i in ctx.indices(60 if ctx.tier == 'quick' else 600, 'grad_history'):
     run_grad_history(ctx, i, ctx.rng('grad_history', i))
   for i in ctx.indices(8, 'aliasing'):
